@@ -934,16 +934,18 @@ pub open spec fn gj_ok(jo: JoinOutput, join: JoinInputDefault, config: Config, o
     &&& is_expansion_of(jo, out)
 }
 """ % ((GS_FI, GS_EV) * 4)))
-    u.append(fns(F_JMOD, [
-        fn("futures_crate_path", "r", ensures=["r == opt_ref(&self.futures_crate_path)"]),
-        fn("branches", "r", ensures=["r@ == self.branches@"],
-           subst=[{"find": "&[Self::Chain]", "replace": "&[ActionExprChain]", "why": "associated type of the JoinInput impl written out (type Chain = ActionExprChain)", "sig": True}]),
-        fn("handler", "r", ensures=["r == opt_ref(&self.handler)"],
-           subst=[{"find": "Option<&Self::Handler>", "replace": "Option<&Handler>", "why": "associated type of the JoinInput impl written out (type Handler = Handler)", "sig": True}]),
-        fn("joiner", "r", ensures=["r == opt_ref(&self.custom_joiner)"]),
-        fn("transpose_results_option", "r", ensures=["r == self.transpose_results"]),
-        fn("lazy_branches_option", "r", ensures=["r == self.lazy_branches"]),
-    ], self_ty="JoinInputDefault", trait="JoinInput", header="impl JoinInputDefault"))
+    # R14: `join.m()` inside `generate_join<T: JoinInput>` is a TRAIT method call; at T = JoinInputDefault the body that runs
+    # is the impl's own method if `impl JoinInput for JoinInputDefault` defines one, else the trait's provided body
+    # (an inherent method of the same name is never chosen by a generic caller)
+    ACC = [("futures_crate_path", "Option<&Path>", "r == opt_ref(&this.futures_crate_path)"),
+           ("branches", "&[ActionExprChain]", "r@ == this.branches@"),
+           ("handler", "Option<&Handler>", "r == opt_ref(&this.handler)"),
+           ("joiner", "Option<&TokenStream>", "r == opt_ref(&this.custom_joiner)"),
+           ("transpose_results_option", "Option<bool>", "r == this.transpose_results"),
+           ("lazy_branches_option", "Option<bool>", "r == this.lazy_branches")]
+    for m, rt, ens in ACC:
+        u.append({"kind": "resolved", "trait_file": F_JMOD, "trait_": "JoinInput", "method": m, "impl_file": F_JMOD, "self_ty": "JoinInputDefault",
+                  "name": "ji_" + m, "ret": "r", "ret_ty": rt, "ensures": [ens]})
     u.append(fns(F_JMOD, [fn("generate_join", "r",
         requires=["forall|b: int| 0 <= b < join.branches@.len() ==> (#[trigger] join.branches@[b]).members@.len() < usize::MAX",
                   "forall|b: int| 0 <= b < join.branches@.len() ==> branch_steps_ok((#[trigger] join.branches@[b]).members@)",
@@ -953,7 +955,8 @@ pub open spec fn gj_ok(jo: JoinOutput, join: JoinInputDefault, config: Config, o
         ensures=["exists|jo: JoinOutput| #[trigger] is_expansion_of(jo, r@) && gj_ok(jo, *join, config, r@)"],
         chain_helpers={"unwrap.into_token_stream": "jo_into_token_stream({}.unwrap())"},
         subst=[{"find": "<T: JoinInput<Chain = ActionExprChain, Handler = Handler>>(\n    join: &T,", "replace": "(\n    join: &JoinInputDefault,",
-                "why": "monomorphised at the only instantiation (join/src/lib.rs::join_impl passes a JoinInputDefault)", "sig": True}],
+                "why": "monomorphised at the only instantiation (join/src/lib.rs::join_impl passes a JoinInputDefault)", "sig": True}] +
+              [{"find": "join.%s()" % m, "replace": "ji_%s(join)" % m, "why": "R14: trait method call on T = JoinInputDefault resolved to the body that runs"} for m, _, _ in ACC],
     )]))
     return u
 
@@ -1005,7 +1008,18 @@ def builder_units():
         # contract only here: verified in module `parse`
         fn("parse_stream", "r", mode="assumed", ensures=PARSE_STREAM_ENSURES),
     ], self_ty="ActionGroup"))
-    u.append(raw("impl_parse_unit", "impl<'a> ParseUnit<ActionGroup> for ActionExprChainBuilder<'a> {\n    open spec fn next_wf(&self, n: Option<ActionGroup>) -> bool { opt_group_wf(n) }\n    #[verifier::external_body]\n    fn parse_unit<T: Parse>(&self, input: ParseStream<'_>, allow_empty_parsed: bool) -> (r: UnitResult<T, ActionGroup>) { unimplemented!() }\n}\nuse crate::Expr::Let;\n"))
+    # parse_until as a whole: ASSUMED here with the postcondition its suffix is VERIFIED against in module `parse`
+    # (every Ok result flows through that suffix: the scan loop in front of it only returns Err)
+    u.append(fns(F_UTILS, [fn("parse_until", "r", mode="assumed", ensures=["r is Ok ==> opt_group_wf(r->Ok_0.next)"],
+                               subst=[{"find": "T: Parse + Clone + Debug", "replace": "T: Parse", "why": "derive-style bounds are irrelevant here", "sig": True},
+                                      {"find": "group_determiners: impl Iterator<Item = &'a GroupDeterminer> + Clone", "replace": "group_determiners: core::slice::Iter<'a, GroupDeterminer>",
+                                       "why": "monomorphised at the only call site (ActionExprChainBuilder::parse_unit passes `self.group_determiners.iter()`)", "sig": True}])]))
+    # the chain builder's unit parser IS parse_until over the builder's determiners (real body, verified)
+    u.append(fns(F_BUILDER, [fn("parse_unit", "r",
+                                subst=[{"find": "T: Parse + Clone + Debug", "replace": "T: Parse", "why": "derive-style bounds are irrelevant here", "sig": True}])],
+                 self_ty="ActionExprChainBuilder", trait="ParseUnit", header="impl<'a> ParseUnit<ActionGroup> for ActionExprChainBuilder<'a>",
+                 extra="    open spec fn next_wf(&self, n: Option<ActionGroup>) -> bool { opt_group_wf(n) }\n"))
+    u.append(raw("use_let", "use crate::Expr::Let;\n"))
     u.append(fns(F_UTILS, [fn("is_block_expr", "r", ensures=["r == (expr is Block)"])]))
     u.append(fns(F_BUILDER, [
         fn("build_from_parse_stream", "r",
@@ -1266,8 +1280,8 @@ OBLIGATIONS = {
     "C04": [("step", "JoinOutput::generate_step"), ("step", "lemma_apos_step"), ("step", "lemma_apos_ends"), ("gen", "JoinOutput::generate_step_branch"), ("steps", "JoinOutput::join_steps"), ("steps", "lemma_join_comma"), ("steps", "lemma_count_take_step"), ("gen", "JoinOutput::generate_results_transposer"), ("gen", "JoinOutput::active_step_branch_count"), ("gen", "JoinOutput::extract_results_tuple"), ("gen", "lemma_refs_toks"), ("gen", "lemma_filter_tokenizable"),
             ("gen", "JoinOutput::is_branch_active_in_step"), ("gen", "JoinOutput::generate_indexed_step_results_name"),
             ("gen", "JoinOutput::branch_result_name"), ("gen", "JoinOutput::branch_result_pat")],
-    "C07": [("top", "generate_join"), ("top", "JoinInputDefault::futures_crate_path"), ("gen", "JoinOutput::wrap_into_block"), ("steps", "JoinOutput::generate_thread_builders_and_spawn_joiners"), ("steps", "JoinOutput::generate_step_tail"), ("steps", "lemma_concat_all"), ("entries", "lemma_entry_table"), ("top", "JoinOutput::to_tokens"), ("gen", "JoinOutput::generate_step_branch")],
-    "C13": [("top", "generate_join"), ("top", "JoinInputDefault::handler"), ("top", "JoinOutput::new"), ("top", "JoinOutput::to_tokens"), ("guards", "Handler::is_map"), ("guards", "Handler::is_then"), ("guards", "Handler::is_and_then"), ("guards", "new_guards"), ("gen", "JoinOutput::generate_handle"), ("gen", "JoinOutput::extract_results_tuple"), ("gen", "JoinOutput::generate_results_transposer")],
+    "C07": [("top", "generate_join"), ("top", "ji_futures_crate_path"), ("gen", "JoinOutput::wrap_into_block"), ("steps", "JoinOutput::generate_thread_builders_and_spawn_joiners"), ("steps", "JoinOutput::generate_step_tail"), ("steps", "lemma_concat_all"), ("entries", "lemma_entry_table"), ("top", "JoinOutput::to_tokens"), ("gen", "JoinOutput::generate_step_branch")],
+    "C13": [("top", "generate_join"), ("top", "ji_handler"), ("top", "JoinOutput::new"), ("top", "JoinOutput::to_tokens"), ("guards", "Handler::is_map"), ("guards", "Handler::is_then"), ("guards", "Handler::is_and_then"), ("guards", "new_guards"), ("gen", "JoinOutput::generate_handle"), ("gen", "JoinOutput::extract_results_tuple"), ("gen", "JoinOutput::generate_results_transposer")],
     "C09": [("gen", "JoinOutput::expand_process_expr"), ("steps", "JoinOutput::generate_step_tail"), ("top", "JoinOutput::to_tokens"), ("step", "JoinOutput::generate_step"), ("step", "lemma_apos_step"), ("step", "lemma_apos_ends"), ("gen", "JoinOutput::generate_step_branch")],
     # the steps of every kind sit in a plain block of the scope the macro is called in (no closure / thread / box of
     # the macro's own between the caller's locals and the branch expressions)
@@ -1286,7 +1300,7 @@ OBLIGATIONS = {
             ("gen", "JoinOutput::generate_def_and_step_streams"), ("gen", "JoinOutput::expand_process_expr"),
             ("core", "ProcessExpr::to_tokens")],
     "C14": [("parse", "parse_until_suffix"), ("det", "lemma_first_match_is_longest"), ("optable", "lemma_operator_tables")],
-    "C16": [("builder", "JoinInputDefault::parse_branches"), ("top", "generate_join"), ("top", "jo_into_token_stream"), ("top", "JoinInputDefault::futures_crate_path"), ("top", "JoinInputDefault::branches"), ("top", "JoinInputDefault::handler"), ("top", "JoinInputDefault::joiner"), ("top", "JoinInputDefault::transpose_results_option"), ("top", "JoinInputDefault::lazy_branches_option"), ("top", "JoinOutput::new"), ("gen", "JoinOutput::generate_handle"), ("gen", "JoinOutput::generate_step_branch"), ("steps", "JoinOutput::generate_step_tail"), ("guards", "new_init_lazy_branches"), ("guards", "new_init_transpose")],
+    "C16": [("builder", "JoinInputDefault::parse_branches"), ("top", "generate_join"), ("top", "jo_into_token_stream"), ("top", "ji_futures_crate_path"), ("top", "ji_branches"), ("top", "ji_handler"), ("top", "ji_joiner"), ("top", "ji_transpose_results_option"), ("top", "ji_lazy_branches_option"), ("top", "JoinOutput::new"), ("gen", "JoinOutput::generate_handle"), ("gen", "JoinOutput::generate_step_branch"), ("steps", "JoinOutput::generate_step_tail"), ("guards", "new_init_lazy_branches"), ("guards", "new_init_transpose")],
     "C17": [("sep", "is_block_expr"), ("sep", "JoinOutput::separate_block_expr_process"), ("sep", "JoinOutput::separate_block_expr_err"), ("sep", "JoinOutput::separate_block_expr_initial"), ("sep", "lemma_sep_step")] + [("names", "lemma_names_never_clash"), ("names", "lemma_names_table"), ("names", "lemma_name3_injective"), ("names", "lemma_name1_injective"), ("names", "lemma_distinguishable"), ("names", "lemma_names_strlits"), ("gen", "JoinOutput::generate_def_and_step_streams")] + [("core", n) for n in ['construct_var_name', 'construct_step_results_name', 'construct_result_name', 'construct_thread_builder_name', 'construct_inspect_fn_name', 'construct_spawn_tokio_fn_name', 'construct_results_name', 'construct_handler_name', 'construct_internal_value_name', 'construct_thread_builder_fn_name', 'construct_expr_wrapper_name']],
     "C20": [("core", n) for n in ['construct_var_name', 'construct_step_results_name', 'construct_result_name', 'construct_thread_builder_name', 'construct_inspect_fn_name', 'construct_spawn_tokio_fn_name', 'construct_results_name', 'construct_handler_name', 'construct_internal_value_name', 'construct_thread_builder_fn_name', 'construct_expr_wrapper_name']],
     "C10": [("sep", "JoinOutput::separate_block_expr_process"), ("sep", "JoinOutput::separate_block_expr_err"), ("sep", "JoinOutput::separate_block_expr_initial"), ("sep", "is_block_expr"), ("sep", "err_is_replaceable"), ("sep", "initial_is_replaceable"), ("sep", "lemma_sep_step"), ("sep", "lemma_defs_empty"), ("sep", "lemma_any_block_upto_step")] + [("core", "ProcessExpr::is_replaceable"), ("core", "ProcessExpr::replace_inner_exprs"), ("core", "ErrExpr::replace_inner_exprs"),
